@@ -16,8 +16,8 @@ EXPLANATION = (
     "abs(literal), and registers under the current line number the node itself for a positive and its negation for a negative literal; 'A' lines "
     "read their children from field 2 on and 'O' lines from field 3 on (format: `A c i..`, `O j c i..`), both through the line-number map; the line "
     "counter advances exactly once per L/A/O line and not for the header; F2 every name of the CNF is attached, with its own label, to the signed node "
-    "of the literal line that carries its key; names whose literal does not occur are attached to TRUE (key 0) or to FALSE (None), never dropped; "
-    "F3 every constraint of the CNF is copied through the rename map; F4 the trivial-CNF path of _compile builds the smooth circuit directly: one atom "
+    "of the literal line that carries its key; names whose literal does not occur are attached to TRUE only for key 0 and to FALSE (None) for every other key (evaluated for the keys 0, positive, negative, None), never dropped; "
+    "F3 every constraint of the CNF - on every path of the copy loop, whatever its class - is copied through the rename map; F4 the trivial-CNF path of _compile builds the smooth circuit directly: one atom "
     "per CNF atom with the CNF's weight, an OR of (i, -i) per atom, their conjunction, every name with its node and label, every constraint copied; "
     "F5 both paths are reached from _compile on the same cnf (the non-trivial path writes cnf.to_dimacs() and loads with that same cnf)."
 )
@@ -202,19 +202,22 @@ def rule_load(repo, col):
     if len(inner2) != 1 or norm(inner2[0].iter) != "%s[%s]" % (inv, lv):
         raise AnalysisError("_load_nnf: inner loop over the names of an absent literal not found")
     an2, lb2 = [norm(x) for x in inner2[0].target.elts]
-    for p in dtable.extract_block(inner2[0].body, opaque_loops=True):
-        cd = dict((s_, t) for s_, t, _ in p.conds)
-        calls2 = [a for fn, a, _ in p.calls if fn == "%s.add_name" % nnf]
-        z = cd.get("%s == 0" % lv)
-        if z is None:
-            raise AnalysisError("_load_nnf: absent-literal branch does not test the key against 0")
+    bp = dtable.extract_block(inner2[0].body, opaque_loops=True)
+    # scenarios over the key of the absent literal: 0 (the TRUE key), a positive literal, a negative literal, None (the FALSE key)
+    for val, what in ((0, "the TRUE key 0"), (3, "a positive literal"), (-3, "a negative literal"), (None, "the FALSE key None")):
+        ps = dtable.compatible(bp, [(lv, val)])
+        if not ps:
+            raise AnalysisError("_load_nnf: no path for an absent literal with key %r" % (val,))
+        want = [an2, "0", lb2] if val == 0 else [an2, "None", lb2]
+        bad = []
+        for p in ps:
+            calls2 = [a for fn, a, _ in p.calls if fn == "%s.add_name" % nnf]
+            if calls2 != [want]:
+                bad.append(calls2)
         n_left += 1
-        want = [an2, "0", lb2] if z else [an2, "None", lb2]
-        col.decide("F2", m, inner2[0], calls2 == [want], "a name with key %s whose literal is absent is attached to %s" % ("0" if z else "of an absent literal", "TRUE (0)" if z else "FALSE (None)"),
-                   "names whose literal does not occur in the circuit must be kept: key 0 -> add_name(name, 0, label), otherwise add_name(name, None, label); found %s" % calls2,
-                   construct="absent literal: key %s" % ("== 0" if z else "!= 0"), function="_load_nnf")
-    if n_left != 2:
-        raise AnalysisError("_load_nnf: absent-literal cases not found")
+        col.decide("F2", m, inner2[0], not bad, "a name with %s whose literal is absent is attached to %s" % (what, "TRUE (0)" if val == 0 else "FALSE (None)"),
+                   "a name with %s whose literal does not occur in the circuit must be attached to %s: only key 0 stands for TRUE, every other absent literal is false in all models; found %s"
+                   % (what, "add_name(name, 0, label)" if val == 0 else "add_name(name, None, label)", bad[:1]), construct="absent literal: key %r" % (val,), function="_load_nnf")
     # constraints
     _constraints(col, m, f, cnf, nnf, True)
 
@@ -227,6 +230,12 @@ def _constraints(col, m, f, cnf, nnf, with_rename):
         c = loops[0].target.id
         node = loops[0]
         calls = [x for x in ast.walk(loops[0]) if isinstance(x, ast.Call) and norm(x.func) == "%s.add_constraint" % nnf]
+        # every constraint: no path through the loop body may skip the copy
+        bp = dtable.extract_block(loops[0].body, opaque_loops=True)
+        skipping = [pth for pth in bp if not any(fn == "%s.add_constraint" % nnf for fn, _, _ in pth.calls) and pth.end in ("fall", "continue", "break")]
+        if skipping:
+            col.fail("F3", m, loops[0], "%s drops constraints of the CNF under the condition %s: every constraint (AD, true-node, clause constraint) restricts the models and must be copied"
+                     % (f.qualname, [c_[0] + ("" if c_[1] else " is false") for c_ in skipping[0].conds]), construct="constraints carried over: all of them", function=f.qualname)
         if len(calls) == 1 and len(calls[0].args) == 1:
             a = calls[0].args[0]
             if isinstance(a, ast.Call) and norm(a.func) == "%s.copy" % c:
